@@ -2390,3 +2390,7 @@ mod tests {
         filter_native(&values, &filter);
     }
 }
+
+#[cfg(kani)]
+#[path = "/verif/kani/arrow-select/filter.rs"]
+mod verif_kani;
